@@ -598,6 +598,13 @@ Definition textop_model (o : textop) : text :=
 Definition txt_case := (textop * text)%type.
 Definition txt_agrees (c : txt_case) : bool := text_eqb (textop_model (fst c)) (snd c).
 
+(* --- Text with the escaped flag through the serialisers -------------- *)
+(* characters, escaped flag, attribute position?, raw slice written *)
+Definition esc_case := (str * bool * bool * str)%type.
+Definition esc_agrees (c : esc_case) : bool :=
+  let '(s, flag, isattr, raw) := c in
+  str_eqb ((if isattr then render_attr_value else render_text) (mkText s flag)) raw.
+
 (* --- request: one value in element or attribute position ----------- *)
 Inductive position := PosText | PosAttr (scope pi : list (str * str)).
 (* value, position, raw slice of the request between the tags / quotes (as
